@@ -93,6 +93,9 @@ def run(ctx):
     allbad, leaks, failed = [], 0, 0
     samples = []
     procs = ctx.pick(6, 14)
+    import eng_tree
+
+    tree0 = eng_tree.tree_state()
 
     def consume(sessions):
         nonlocal leaks, failed
@@ -121,12 +124,14 @@ def run(ctx):
     nsim = ctx.pick(400, 20000)
     r, sessions = sessions_from(ctx, "ComptimeGlobals_sim.cfg", simulate=f"num={nsim // 4 + 1}", depth=300,
                                 seed=ctx.seed + 1, timeout=ctx.pick(900, 3000))
+    eng_tree.count_sim_states(ctx, r)
     uniq = sorted({json.dumps(s, sort_keys=True) for s in sessions})
     random.Random(ctx.seed).shuffle(uniq)
     sim = [json.loads(s) for s in uniq[:nsim]]
     consume(sim)
     ctx.log(f"simulation: {len(sessions)} emitted, {len(uniq)} distinct, {len(sim)} replayed")
 
+    eng_tree.require_unchanged(tree0)
     need = ("ok", "py", "guppy", "bad_return")
     if any(acc["outcomes"].get(k, 0) == 0 for k in need) or not (acc["with_nested_compile"] and acc["user_bound"]
                                                                   and acc["steps_with_two_modules_mocked"]):
@@ -159,8 +164,8 @@ def run(ctx):
         "mismatching_sessions": len(allbad),
         "side_observation_tracing_state": {
             "failed_compiles": failed, "tracing_active_still_true_afterwards": leaks,
-            "note": "set_tracing_state (tracing/state.py) has no try/finally: _STATE stays set after a failed trace. "
-                    "Not part of the module namespace, hence not a C23 violation; reported to the lead."},
+            "note": "tracing_active() after a failed top-level compile (tracing/state.py set_tracing_state); not part of "
+                    "the module namespace, hence recorded only (its effect on later outcomes is checked by C11)"},
     })
     ctx.assumptions += ["TLC", "generated module text (eng_ct.py) realises the session chosen by the spec",
                         "classification of a binding by object identity (user object / mock object / absent)"]
